@@ -793,3 +793,59 @@ def boundmemo(repo):
                 m.rel, cc.node.lineno, cc.name)
     res.analysed = [m.rel]
     return res
+
+
+def modcombine(repo):
+    """R-MODCOMBINE (C05): an inferred modulus m(e) is sound only if it divides every true modulus of e, so moduli of
+    different operands are combined by greatest common divisors (and by products with the zero-congruence part, as in
+    doc/modular_congruence_multiplication_proof.tex) -- never by an order comparison: `min(m1, m2)` equals `gcd(m1, m2)`
+    only when one divides the other (4 and 6 give 4, the value is only even).  In expression_bounds.py no value derived
+    from a `.modulus` (directly, through a name or through a list it was appended to) is an argument of min / max /
+    sorted or an operand of an ordering comparison that selects between moduli; the combining operations that do occur
+    (gcd helper calls over modulus-derived values) are counted, with a floor."""
+    res = RuleResult("R-MODCOMBINE")
+    m = repo.mod("compiler/front_end/expression_bounds.py")
+    gcd_names = {f.name for f in m.top_funcs() if "common_divisor" in f.name or f.name in ("_gcd", "gcd")}
+    if not gcd_names:
+        raise AnalysisError("expression_bounds: the gcd helper was not found")
+    order_calls = {"min", "max", "_min", "_max", "sorted"}
+    for f in m.top_funcs():
+        if f.name in gcd_names or f.name.startswith("_assert"):
+            continue
+        tainted = set()
+
+        def is_tainted(e):
+            for n in ast.walk(e):
+                if isinstance(n, ast.Attribute) and n.attr == "modulus":
+                    return True
+                if isinstance(n, ast.Name) and (n.id in tainted or "modul" in n.id and "modular_value" not in n.id):
+                    return True
+            return False
+        # two passes reach a fixed point for straight-line code with loops
+        for _ in range(3):
+            for n in walk_no_nested_funcs(f.node):
+                if isinstance(n, (ast.Assign, ast.AugAssign, ast.AnnAssign)) and n.value is not None and is_tainted(n.value):
+                    tgts = n.targets if isinstance(n, ast.Assign) else [n.target]
+                    for t in tgts:
+                        elts = t.elts if isinstance(t, (ast.Tuple, ast.List)) else [t]
+                        for x in elts:
+                            if isinstance(x, ast.Name) and "modular_value" not in x.id:
+                                tainted.add(x.id)
+                if isinstance(n, ast.Call) and isinstance(n.func, ast.Attribute) and n.func.attr in ("append", "extend", "add") \
+                        and isinstance(n.func.value, ast.Name) and any(is_tainted(a) for a in n.args):
+                    tainted.add(n.func.value.id)
+        for n in walk_no_nested_funcs(f.node):
+            if isinstance(n, ast.Call):
+                cn = call_name(n) or ""
+                base = cn.split(".")[-1]
+                if base in gcd_names or cn in ("math.gcd",):
+                    if any(is_tainted(a) for a in n.args):
+                        res.instances += 1
+                elif base in order_calls and any(is_tainted(a) for a in n.args):
+                    res.add(f"{m.rel}|{f.name}|{base}", f"{f.name}: `{ast.unparse(n)[:90]}` orders moduli; the modulus of a combination "
+                            "must divide the modulus of every operand (gcd): the smaller of 4 and 6 is 4, the values are only "
+                            "congruent modulo 2, so the inferred alignment is claimed but not true", m.rel, n.lineno, f.name)
+    if res.instances < 4 and not res.findings:
+        raise AnalysisError(f"only {res.instances} gcd combinations of moduli recognised")
+    res.analysed = [m.rel]
+    return res
